@@ -27,6 +27,7 @@ type typeContract struct {
 	Guarded     map[string]string   `json:"guarded"`      // field -> mutex field
 	CallerHolds map[string][]string `json:"caller_holds"` // method -> mutexes held on entry
 	Exempt      []string            `json:"exempt"`       // functions that run before the object is shared
+	Confined    map[string][]string `json:"confined"`     // field -> the only functions that may touch it (goroutine-confined)
 }
 
 type globalContract struct {
@@ -107,6 +108,22 @@ func (w *walker) lockCall(e ast.Expr) (mu, op string) {
 	return "", ""
 }
 
+func (w *walker) recordConfined(n ast.Node, field string) {
+	ok := false
+	for _, f := range w.tc.Confined[field] {
+		if f == w.fn {
+			ok = true
+		}
+	}
+	pos := w.fset.Position(n.Pos())
+	hs := []string{}
+	if ok {
+		hs = []string{"confined:" + field}
+	}
+	*w.out = append(*w.out, access{Pkg: w.tc.Pkg, Type: w.tc.Type, Field: field, Func: w.fn, File: w.file, Line: pos.Line,
+		Guard: "confined:" + field, Held: hs, OK: ok})
+}
+
 func (w *walker) record(n ast.Node, field string, h held) {
 	guard := w.tc.Guarded[field]
 	var hs []string
@@ -127,6 +144,13 @@ func (w *walker) expr(e ast.Node, h held) {
 	ast.Inspect(e, func(n ast.Node) bool {
 		switch x := n.(type) {
 		case *ast.FuncLit:
+			if pn := paramOfType(x.Type, w.tc.Type); pn != "" && pn != w.recv {
+				// e.g. an option `func(t *T) …`: its parameter is the object
+				w2 := *w
+				w2.recv = pn
+				w2.block(x.Body.List, held{})
+				return false
+			}
 			w.block(x.Body.List, held{})
 			return false
 		case *ast.CallExpr:
@@ -149,6 +173,9 @@ func (w *walker) expr(e ast.Node, h held) {
 			if id, ok := x.X.(*ast.Ident); ok && id.Name == w.recv {
 				if _, guarded := w.tc.Guarded[x.Sel.Name]; guarded {
 					w.record(x, x.Sel.Name, h)
+				}
+				if _, conf := w.tc.Confined[x.Sel.Name]; conf {
+					w.recordConfined(x, x.Sel.Name)
 				}
 			}
 		}
@@ -315,6 +342,23 @@ func (w *walker) clauses(list []ast.Stmt, h held) held {
 	return res
 }
 
+// paramOfType returns the name of the first parameter whose type is T or *T.
+func paramOfType(ft *ast.FuncType, typ string) string {
+	if ft == nil || ft.Params == nil {
+		return ""
+	}
+	for _, f := range ft.Params.List {
+		t := f.Type
+		if st, ok := t.(*ast.StarExpr); ok {
+			t = st.X
+		}
+		if id, ok := t.(*ast.Ident); ok && id.Name == typ && len(f.Names) > 0 {
+			return f.Names[0].Name
+		}
+	}
+	return ""
+}
+
 func recvOf(fd *ast.FuncDecl) (name, typ string) {
 	if fd.Recv == nil || len(fd.Recv.List) == 0 {
 		return "", ""
@@ -381,7 +425,27 @@ func main() {
 				rname, rtype := recvOf(fd)
 				for i := range c.Types {
 					tc := &c.Types[i]
-					if tc.Pkg != pkg || tc.Type != rtype {
+					if tc.Pkg != pkg {
+						continue
+					}
+					if tc.Type != rtype {
+						// not a method of the type: a parameter of the type plays the receiver; otherwise only
+						// function literals inside (options, callbacks) that take the object are looked at
+						isExempt := false
+						for _, e := range tc.Exempt {
+							if e == fd.Name.Name {
+								isExempt = true
+							}
+						}
+						if isExempt {
+							continue
+						}
+						pn := paramOfType(fd.Type, tc.Type)
+						if pn == "" {
+							pn = "\x00none"
+						}
+						w := &walker{fset: fset, tc: tc, recv: pn, fn: fd.Name.Name, file: rel, out: &out}
+						w.block(fd.Body.List, held{})
 						continue
 					}
 					exempt := false
